@@ -1,5 +1,7 @@
-(* C14 — syscall-level model of the copier's write path (/repo/copy, Linux build, HEAD incl. the
-   fixes 796fe1f / 92eb743) as sequences of Model/Fs.v syscalls issued by a process with
+(* C14 — syscall-level model of the copier's write path (/repo/copy, Linux build, incl. the fixes
+   796fe1f / 92eb743, forgetLinkSources (the hard-link map drops the paths at or below a destination
+   entry the copier is about to remove or replace), ENOTDIR tolerated at the target Lstat of
+   copier.copy, ".." in Copy's ensureDstPath test) as sequences of Model/Fs.v syscalls issued by a process with
    context [c] (real root and working directory; srcRoot / dstRoot are ordinary path strings).
 
    Go                                         here
@@ -13,6 +15,7 @@
    copyDirectoryOnly / ensureEmptyFileTarget  copy_directory_only / ensure_empty_file_target
    removeTargetIfNeeded                       remove_target_if_needed
    getLinkSource + os.Link / copyFile         copy_regular (inode map, Open+Create+copy)
+   forgetLinkSources                          forget_links
    os.Readlink + os.Symlink / copyDevice      in copy_rec
    copier.copyFileInfo / copyFileTimestamp copy_file_info / copy_file_timestamp
    copyXAttrs                                 copy_xattrs
@@ -66,6 +69,11 @@ Definition get_fs : M fs := fun s => (s, inl (s_fs s)).
 Definition get_links : M (list (N * bytes)) := fun s => (s, inl (s_links s)).
 Definition add_link (i : N) (p : bytes) : M unit :=
   fun s => ({| s_fs := s_fs s; s_links := (i, p) :: s_links s; s_reads := s_reads s |}, inl tt).
+(* forgetLinkSources(path): drop the recorded first copies at or below path *)
+Definition forget_path (path p : bytes) : bool := bytes_eqb p path || has_prefix (path ++ [sep]) p.
+Definition forget_links (path : bytes) : M unit :=
+  fun s => ({| s_fs := s_fs s; s_links := filter (fun e => negb (forget_path path (snd e))) (s_links s);
+               s_reads := s_reads s |}, inl tt).
 
 (* error classes (diagnostic only; the correspondence compares "error or not") *)
 Definition E_SYS : N := 1.        (* a syscall failed *)
@@ -87,6 +95,15 @@ Definition lstat_opt (c : ctx) (p : bytes) : M (option (N * inode)) :=
   match r with
   | RStat i n => ret (Some (i, n))
   | RErr ENOENT => ret None
+  | _ => fail E_SYS
+  end.
+(* the target Lstat of copier.copy also tolerates ENOTDIR (a parent is not a directory) *)
+Definition lstat_opt_nd (c : ctx) (p : bytes) : M (option (N * inode)) :=
+  r <~ sys (fun f => sys_lstat c f p) ;;
+  match r with
+  | RStat i n => ret (Some (i, n))
+  | RErr ENOENT => ret None
+  | RErr ENOTDIR => ret None
   | _ => fail E_SYS
   end.
 Definition stat_opt (c : ctx) (p : bytes) : M (option (N * inode)) :=
@@ -200,7 +217,7 @@ Definition remove_target_if_needed (c : ctx) (o : copts) (target : bytes) (fi : 
        | None => ret tt
        | Some (_, tn) =>
          if kind_is_dir fi && kind_is_dir tn then ret tt
-         else r <~ sys (fun f => sys_remove_all c f target) ;; expect_ok r
+         else forget_links target ;;; r <~ sys (fun f => sys_remove_all c f target) ;; expect_ok r
        end.
 
 (* os.Remove: unlink, then rmdir *)
@@ -316,9 +333,11 @@ Fixpoint copy_rec (fuel : nat) (c : ctx) (o : copts) (src target : bytes) (overw
     match r with
     | RStat ino fi =>
       log_read ino ;;;
-      tfi <~ lstat_opt c target ;;
+      tfi <~ lstat_opt_nd c target ;;
       remove_target_if_needed c o target fi tfi ;;;
-      (if kind_is_dir fi then ret tt else ensure_empty_file_target c target) ;;;
+      (if kind_is_dir fi then ret tt
+       else (match tfi with Some _ => forget_links target | None => ret tt end) ;;;
+            ensure_empty_file_target c target) ;;;
       match i_kind fi with
       | KDir _ _ =>
         created <~ copy_directory_only c target fi overwrite ;;
@@ -418,7 +437,7 @@ Definition copy_top (fuel : nat) (c : ctx) (o : copts) (src_root src dst_root ds
   (matches : option (list bytes)) : cst -> cst * (unit + N) :=
   fun s =>
   let ensure := match split_path dst with
-                | (d, fl) => if nonempty fl && negb (bytes_eqb fl s_dot) then d else dst
+                | (d, fl) => if nonempty fl && negb (bytes_eqb fl s_dot) && negb (bytes_eqb fl s_dotdot) then d else dst
                 end in
   let pre : M (list (list bytes)) :=
     if nonempty ensure then
